@@ -137,6 +137,10 @@ fn main() {
             if let Some(c) = a.get("cases").and_then(|s| s.parse::<u64>().ok()) {
                 n = c;
             }
+            if let Some(f) = a.get("scale").and_then(|s| s.parse::<f64>().ok()) {
+                // mutation-trial matrix only: a fraction of the registered budget
+                n = ((n as f64) * f).ceil() as u64;
+            }
             let first: u64 = a.get("first").and_then(|s| s.parse().ok()).unwrap_or(0);
             let mut journal = a.get("journal").map(|p| {
                 std::fs::OpenOptions::new().create(true).append(true).open(p).expect("harness: journal")
